@@ -18,7 +18,11 @@ def main(tier: str) -> int:
     for name in (("flow2", "nameq", "dtq") if tier == "quick" else ("flow2", "nameq", "dtq", "pfx", "quads", "qt")):
         c = dict(slices[name] if name in slices else U.THOROUGH_SLICES[name], CheckFits=False)   # the code's own (elision-aware) refusal
         idle, pools, gr = wg.model_idle_states(c)
-        real_idle, trans_ = wg.walk(c, pools)
+        try:
+            real_idle, trans_ = wg.walk(c, pools)
+        except AttributeError as ex:       # the projection reads encoder internals; renamed internals degrade this Tier-2 comparison only
+            run.model_drift(f"state projection of Stream/TermEncoder unavailable ({ex}): state-graph comparison skipped")
+            break
         judged_, gst = wg.judge_transitions(c, trans_)
         mism = 0
         for tr in trans_:
